@@ -230,9 +230,14 @@ class NumericArray(list):
           yield e
         else:
           try:
-            yield float(e)
+            f = float(e)
           except:
             raise gfapy.ValueError(
                 "Value is not valid: {}\n".format(e)+
                 "Numeric array string: {}".format(string))
+          if not valid and f in [float("inf"), float("-inf")]:
+            raise gfapy.ValueError(
+                "Value cannot be represented as a GFA float: {}\n".format(e)+
+                "Numeric array string: {}".format(string))
+          yield f
     return cls(list(gen()))
